@@ -713,6 +713,20 @@ def directed_worlds():
             {"at": 20, "decs": [{"do": "evict", "profile": "M0", "pool": 1, "time": 21}]}]},
         "flags": {"timeout": 100, "frequency": 2}, "seed": 1,
     })
+    # a task on a conditional branch that also has a skip edge from a task BEFORE the conditional: when the branch is not
+    # taken the whole branch (B, b2, b3) is cancelled up to but excluding the join J, whatever the traversal order
+    sk_jobs = [{"name": "P", "profile": 0, "children": ["C", "b2"]}, {"name": "C", "profile": 0, "children": ["A", "B"], "cond": True},
+               {"name": "A", "profile": 1, "children": ["J"], "prob": 0.5}, {"name": "B", "profile": 0, "children": ["b2"], "prob": 0.5},
+               {"name": "b2", "profile": 1, "children": ["b3"]}, {"name": "b3", "profile": 0, "children": ["J"]},
+               {"name": "J", "profile": 0, "children": ["K"], "term": True}, {"name": "K", "profile": 1}]
+    for nm, sched, fl in (("cond_skip_edge_into_branch_edf", {"kind": "edf", "runtime": 0}, {}),
+                          ("cond_skip_edge_into_branch_resolved", {"kind": "fifo", "runtime": 0}, {"resolve_conditionals": True}),
+                          ("cond_skip_edge_into_branch_planahead", {"kind": "hostile", "runtime": 0, "cancel_rate": 0.0, "lookahead": 15, "rtg": True}, {})):
+        out.append({
+            "name": nm, "profiles": [P(2), P(3)],
+            "graphs": [{"name": "G0", "jobs": sk_jobs, "policy": {"type": "fixed", "period": 3, "n": 6, "start": 0}, "dv": [0, 0]}],
+            "pools": [[[I("gpu", "g1", 2)]]], "sched": sched, "flags": dict(fl, timeout=500), "seed": 5,
+        })
     # trace-replay style task graphs (no JobGraph): a non-pipelined Camera (15us, a frame every 10us) feeding a Detector
     # over 4 timestamps: Camera@t depends on Camera@t-1 only ("source" in the sense of TaskGraph.is_source_task) and must
     # still wait for it; under EDF, and under a policy that plans the later frames ahead while the earlier ones run
